@@ -35,6 +35,10 @@ def ncpu():
     except ValueError: return 8
 
 
+class Raw(str):
+    """oracle argument passed verbatim (not hex-encoded)"""
+
+
 class Oracle:
     """line-protocol client for the native oracle binary (see /verif/oracle)"""
 
@@ -54,7 +58,8 @@ class Oracle:
         for cmd, args in lines:
             toks = [cmd]
             for a in args:
-                if isinstance(a, int): toks.append(str(a))
+                if isinstance(a, Raw): toks.append(str(a))
+                elif isinstance(a, int): toks.append(str(a))
                 else: toks.append(s.hx(a))
             inp.append(' '.join(toks))
         e = {'PATH': os.environ.get('PATH', ''), 'ORACLE_QUIET': '1'}
@@ -99,9 +104,9 @@ def _run_case(args):
         r = r or {}
         r.setdefault('status', 'ok')
     except Unsupported as e:
-        r = {'status': 'unsupported', 'error': str(e)[:600], 'trace': traceback.format_exc()[-1500:]}
+        r = {'status': 'unsupported', 'error': str(e)[:600], 'trace': traceback.format_exc()[-400:]}
     except Exception as e:   # noqa
-        r = {'status': 'error', 'error': '%s: %s' % (type(e).__name__, str(e)[:600]), 'trace': traceback.format_exc()[-2500:]}
+        r = {'status': 'error', 'error': '%s: %s' % (type(e).__name__, str(e)[:600]), 'trace': traceback.format_exc()[-600:]}
     r['case'] = params if _jsonable(params) else repr(params)
     r['case_idx'] = idx
     r['wall_s'] = round(time.time() - t0, 3)
